@@ -54,8 +54,8 @@ META = {
                     ('src/geophires_x/Parameter.py', 'ConvertUnitsBack'), ('src/geophires_x/Parameter.py', 'ConvertOutputUnits'),
                     ('src/geophires_x/Parameter.py', 'ReadParameter'), ('src/geophires_x/Outputs.py', 'Outputs._convert_units')],
 }
-GENERATORS = (gen.gen_unit_catalogue,)
-REQ = ['Model.UnitAlg', 'Model.UnitReader', 'Gen.UnitCatalogue']
+GENERATORS = (gen.gen_unit_catalogue, gen.gen_unit_reference)
+REQ = ['Model.UnitAlg', 'Model.UnitReader', 'Gen.UnitCatalogue', 'Gen.UnitReference']
 TOL = F(1, 10 ** 9)
 VERDICT = {1: 'raises', 2: 'value', 3: 'stale-units'}
 ERRNAME = {3: 'range', 10: 'init', 11: 'undefined-unit', 12: 'convert', 13: 'forex', 14: 'attribute', 15: 'dimension', 98: 'other'}
@@ -393,6 +393,34 @@ def check_tables(ctx, d):
 
 
 # ---------------------------------------------------------------------------------------------------------------
+# the frozen, registry-independent reference (spec/c06_unit_reference.json) vs the live registry
+# ---------------------------------------------------------------------------------------------------------------
+
+def registry_vs_reference(unit, ref):
+    """what the live registry makes of 1 <unit> and 0 <unit>, expressed in <ref> -> (factor, offset) floats or an error text"""
+    gx, P, U = cu.modules()
+    ureg = U.get_unit_registry()
+    try:
+        z = ureg.Quantity(0.0, unit).to(ref if ref else 'dimensionless').magnitude
+        return ureg.Quantity(1.0, unit).to(ref if ref else 'dimensionless').magnitude - z, z
+    except Exception as e:
+        return f'{type(e).__name__}: {e}'
+
+
+def check_reference(ctx, d):
+    ref = gen.reference()
+    terms = [f'ref_entry_ok {q(TOL)} gen_tables ({cs(u)}, {cs(r)}, {q(f)}, {q(o)})' for u, r, f, o in ref]
+    bad = fw.kernel_bools(ctx, 'reference', REQ, terms, open_scope='Q_scope')
+    ctx.count('reference-units', evaluations=len(terms), nontrivial_keys=[u for u, r, _, _ in ref if u != r])
+    for i in bad:
+        u, r, f, o = ref[i]
+        ctx.violate('property', f'reference:unit:{u}', f'the program\'s unit registry takes 1 {u!r} to be {registry_vs_reference(u, r)} {r!r} '
+                    f'(factor, offset); the documented meaning is {float(f)!r}, {float(o)!r}: every input or output written in {u!r} is mis-scaled',
+                    inp={'part': 'reference', 'unit': u, 'in': r, 'entry': f'1 {u} expressed in {r}'},
+                    expected={'factor': float(f), 'offset': float(o)}, observed=str(registry_vs_reference(u, r)))
+
+
+# ---------------------------------------------------------------------------------------------------------------
 # output units: LookupUnits(text)[0] + ConvertOutputUnits on every output parameter x catalogue unit
 # ---------------------------------------------------------------------------------------------------------------
 
@@ -451,29 +479,42 @@ def check_outputs(ctx, d):
         c = cases[i]
         ctx.violate('corr', f'corr:output:{okey(c)}', f'Coq model of ConvertOutputUnits and the implementation disagree on '
                     f'"Units:{c["row"]["name"]}, {c["nu"]}"', inp=out_inp(c), observed=show_oobs(c['obs']))
-    verdicts = zverdicts(ctx, 'output-oracle', oracles)
-    dist, seen = {}, set()
-    for c, v in zip(cases, verdicts):
-        dist[v] = dist.get(v, 0) + 1
-        if v in (0, 9):
-            continue
-        o = c['obs']
-        kind = {1: 'raises-' + ERRNAME.get(o.get('code'), 'other'), 2: 'factor', 3: 'label'}[v]
-        key = f'output:{kind}:{okey(c)}'
-        if key in seen:
-            continue
-        seen.add(key)
-        ctx.violate('property', key, f'"Units:{c["row"]["name"]}, {c["nu"]}" on values {[float(x) for x in c["vals"]]} in '
-                    f'{c["row"]["cur"][1]!r}: ' + ('raises ' + o['exc'] if v == 1 else f'gives {show_oobs(o)}'),
-                    inp=out_inp(c), observed=show_oobs(o),
-                    expected={'values': [float(x) for x in (to_unit(d, x, c['row']['cur'][1], c['nu']) for x in c['vals'])], 'label': c['nu']})
-    ctx.count('output-oracle', evaluations=len(oracles), verdicts=dist)
+    # judged twice: by the program's own registry (regenerated table) and by the frozen independent reference
+    refd = {u: (r, f, o) for u, r, f, o in gen.reference()}
+    for tables, tag in (('gen_tables', 'output'), ('ref_tables', 'output-ref')):
+        verdicts = zverdicts(ctx, tag + '-oracle', [t.replace('gen_tables', tables) for t in oracles])
+        dist, seen = {}, set()
+        for c, v in zip(cases, verdicts):
+            dist[v] = dist.get(v, 0) + 1
+            if v in (0, 9):
+                continue
+            o = c['obs']
+            kind = {1: 'raises-' + ERRNAME.get(o.get('code'), 'other'), 2: 'factor', 3: 'label'}[v]
+            key = f'{tag}:{kind}:{okey(c)}'
+            if key in seen:
+                continue
+            seen.add(key)
+            ctx.violate('property', key, f'"Units:{c["row"]["name"]}, {c["nu"]}" on values {[float(x) for x in c["vals"]]} in '
+                        f'{c["row"]["cur"][1]!r}: ' + ('raises ' + o['exc'] if v == 1 else f'gives {show_oobs(o)}') +
+                        (' - judged by the frozen unit reference (spec/c06_unit_reference.json)' if tag == 'output-ref' else ''),
+                        inp={**out_inp(c), 'reference': tag == 'output-ref'}, observed=show_oobs(o),
+                        expected={'values': [float(x) for x in (ref_convert(refd, x, c['row']['cur'][1], c['nu']) if tag == 'output-ref'
+                                                                else to_unit(d, x, c['row']['cur'][1], c['nu']) for x in c['vals'])], 'label': c['nu']})
+        ctx.count(tag + '-oracle', evaluations=len(oracles), verdicts=dist)
     ctx.count('output-impl', evaluations=n_all)
+
+
+def ref_convert(refd, x, a, b):
+    """x <a> expressed in <b> by the frozen reference; None when the reference does not relate them"""
+    if a not in refd or b not in refd or refd[a][0] != refd[b][0]:
+        return float('nan')
+    return (refd[a][1] * F(x) + refd[a][2] - refd[b][2]) / refd[b][1]
 
 
 def out_inp(c):
     r = c['row']
-    return {'part': 'output', 'cls': r['cls'], 'key': r['key'], 'output': r['name'], 'unit': c['nu'], 'values': [str(x) for x in c['vals']]}
+    return {'part': 'output', 'cls': r['cls'], 'key': r['key'], 'output': r['name'], 'unit': c['nu'], 'values': [str(x) for x in c['vals']],
+            'entry': f'Units:{r["name"]}, {c["nu"]}'}
 
 
 def show_oobs(o):
@@ -611,13 +652,20 @@ def numeric_leaves(snap):
 
 
 def results_differ(a, b, tol=1e-6):
-    """first quantity of snapshot b that differs from snapshot a, or None"""
+    """first quantity of snapshot b that differs from snapshot a, or None.  A quantity differs when it is off by more than
+    1e-6 relative AND by more than 1e-9 of the largest magnitude held by the same component (net quantities that nearly
+    cancel - e.g. net electricity of a plant whose pumps eat the output - amplify the 1e-10 rounding of the re-expressed entry)"""
     la, lb = numeric_leaves(a), numeric_leaves(b)
+    big = {}
+    for k, v in la.items():
+        c = k.split('.')[0]
+        big[c] = max([big.get(c, 0.0)] + [abs(x) for x in v if not math.isnan(x) and not math.isinf(x)])
     for k in sorted(la):
         if k not in lb or len(la[k]) != len(lb[k]):
             return k, la[k][:3], lb.get(k, [])[:3]
+        floor = 1e-8 + 1e-9 * big[k.split('.')[0]]
         for x, y in zip(la[k], lb[k]):
-            if x != y and not (math.isnan(x) and math.isnan(y)) and not abs(x - y) <= tol * max(abs(x), abs(y)) + 1e-8:
+            if x != y and not (math.isnan(x) and math.isnan(y)) and not abs(x - y) <= tol * max(abs(x), abs(y)) + floor:
                 return k, x, y
     return None
 
@@ -871,6 +919,7 @@ def correspondence(ctx, proofs_ok=True):
     if d['scan_error']:
         raise RuntimeError('LookupUnits scan order not recognised: ' + d['scan_error'])
     check_tables(ctx, d)
+    check_reference(ctx, d)
     check_reader(ctx, d)
     check_outputs(ctx, d)
     check_convert_loop(ctx, d)
@@ -890,7 +939,8 @@ def search(ctx):
 def replay(ctx, data):
     with fw.coq_lock():
         gen.gen_unit_catalogue(ctx)
-        rc, log = fw.make(['Gen/UnitCatalogue.vo'])
+        gen.gen_unit_reference(ctx)
+        rc, log = fw.make(['Gen/UnitCatalogue.vo', 'Gen/UnitReference.vo'])
     if rc != 0:
         print('cannot build the model: ' + log[-500:])
     d = gen.data()
@@ -930,7 +980,11 @@ def replay(ctx, data):
             v = o['value']
             o['vals'] = [F(float(x)) for x in (v.tolist() if hasattr(v, 'tolist') and np.ndim(v) else [v])]
         print('implementation:', show_oobs(o))
-        t = f'(oracle_output gen_tables {q(TOL)} {cs(rows[0]["cur"][1])} {cs(inp["unit"])} {qconv.qlist(vals)} {oobs_term(o)})'
+        tables = 'ref_tables' if inp.get('reference') else 'gen_tables'
+        t = f'(oracle_output {tables} {q(TOL)} {cs(rows[0]["cur"][1])} {cs(inp["unit"])} {qconv.qlist(vals)} {oobs_term(o)})'
+        if inp.get('reference'):
+            refd = {u: (r, f, o_) for u, r, f, o_ in gen.reference()}
+            print('expected by the frozen reference:', [float(ref_convert(refd, x, rows[0]['cur'][1], inp['unit'])) for x in vals], inp['unit'])
         v = zverdicts(ctx, 'replay_output', [t])[0]
         print('Coq oracle verdict', v, '-> property', 'holds' if v in (0, 9) else 'VIOLATED')
         return 0 if v in (0, 9) else 1
@@ -950,6 +1004,13 @@ def replay(ctx, data):
         return 1 if viol else 0
     if part == 'loop':
         return replay_loop(ctx, d, inp)
+    if part == 'reference':
+        e = [x for x in gen.reference() if x[0] == inp['unit']][0]
+        got = registry_vs_reference(e[0], e[1])
+        ok = not isinstance(got, str) and abs(got[0] - float(e[2])) <= 1e-9 * abs(float(e[2])) and abs(got[1] - float(e[3])) <= 1e-9 * max(1, abs(float(e[3])))
+        print(f'registry: 1 {e[0]} = {got} {e[1]} (factor, offset); frozen reference: ({float(e[2])!r}, {float(e[3])!r})')
+        print('property', 'holds' if ok else 'VIOLATED', 'on this input')
+        return 0 if ok else 1
     print('unknown replay part', part)
     return 1
 
